@@ -123,7 +123,7 @@ def handle(c):
     def fail(cfg, what):
         sig = known_class(cfg) or 'totals:%s:%s:%s%s%s' % (
             cfg.get('lin'), cfg.get('mode'), cfg.get('jac'), ':rhs_checking' if cfg.get('rhs') else '',
-            ':approx_totals' if cfg.get('approx') else '')
+            ':approx_totals' if cfg.get('approx') else (':model-approx_totals' if cfg.get('approx_model') else ''))
         failures.append((known_class(cfg) is not None, sig, '%s | cfg=%s' % (what, cfg), cfg))
 
     probs = {}
@@ -131,7 +131,7 @@ def handle(c):
     for ci, cfg in enumerate(c['cfgs']):
         key = (cfg.get('mode'), cfg.get('lin'), cfg.get('jac'), cfg.get('nl'), cfg.get('mf', True),
                json.dumps(cfg.get('rhs'), sort_keys=True), bool(cfg.get('approx')), bool(cfg.get('approx_any')),
-               bool(cfg.get('lazy')))
+               bool(cfg.get('lazy')), bool(cfg.get('approx_model')), bool(cfg.get('coloring')))
         try:
             if key not in probs:
                 p = ob.build(spec, cfg)
@@ -151,7 +151,7 @@ def handle(c):
         if isinstance(cfg.get('rhs'), dict) and cfg['rhs'].get('collect_stats'):
             per_prob[key] = ob.rhs_stats(p)      # cumulative per problem: keep the latest
         ds = bool(cfg.get('driver_scaling', False))
-        exact = sexact and cfg_exact(cfg) and not cfg.get('approx')
+        exact = sexact and cfg_exact(cfg) and not cfg.get('approx') and not cfg.get('approx_model')
         iterative = spec['coupled'] or not str(cfg.get('lin', '')).startswith('direct')
         slack = sg.solver_slack(ex) * scale_max[ds] if (iterative and not exact) else 0.0
         good, why = close(J, Jx[ds], exact, slack)
